@@ -295,7 +295,8 @@ def reference_alt_form(scenario, texts, sid, path, shift):
             if ad["kind"] == "response":
                 ad = {k: v for k, v in ad.items() if k != "view_of"}
                 forms = model.FORMS
-                ad["form"] = forms[(forms.index(ad.get("form", "asis")) + shift) % len(forms)]
+                if ad.get("form", "asis") in forms:  # malformed forms have no equivalent other form
+                    ad["form"] = forms[(forms.index(ad.get("form", "asis")) + shift) % len(forms)]
             mine[aid] = model.materialise_arg(scenario, texts, aid, get_arg, argdef=ad)
         return mine[aid]
 
